@@ -626,6 +626,8 @@ func (hp *HTTPProxy) isLocalhost(host string) bool {
 	if slices.Contains(hp.localhost, host) {
 		return true
 	}
+	// A zone does not change which host an IPv6 literal denotes ("::1%lo" is still the loopback address).
+	host, _, _ = strings.Cut(host, "%")
 	// The unspecified address in any spelling ("[::0]", "[::ffff:0.0.0.0]", ...) connects to the local host as well.
 	if ip := net.ParseIP(host); ip != nil && (ip.IsLoopback() || ip.IsUnspecified()) {
 		return true
